@@ -64,7 +64,8 @@ def scratch(prefix: str = "rv-") -> Iterator[Path]:
     try:
         yield d
     finally:
-        shutil.rmtree(d, ignore_errors=True)
+        if not os.environ.get("VERIF_KEEP_SCRATCH"):  # debugging aid
+            shutil.rmtree(d, ignore_errors=True)
 
 
 def write_if_changed(path: Path, content: str) -> bool:
